@@ -213,6 +213,33 @@ func TestExh_C07(t *testing.T) {
 				L(10, none), L(20, Fault{Kind: "leave", Then: "exit", ThenMs: d}), L(30, none)}})
 		}
 	}
+	// the late joiner: every kind of fault during its Configure and during its Synchronize, then
+	// the first request, a healthy second joiner and the follow-up
+	jfaults := []Fault{
+		{Kind: "error", ErrText: "c07 joiner 20 refuses", ErrForm: "plain"},
+		{Kind: "error", ErrText: "c07 joiner 20 refuses", ErrForm: "status", ErrCode: 4},
+		{Kind: "hang"},
+		{Kind: "close", When: "during"},
+		{Kind: "cut", Dir: "p2r", K: 5},
+		{Kind: "cut", Dir: "r2p", K: 12},
+		{Kind: "undecodable", Level: "payload", Bytes: []byte{0x08}},
+	}
+	if ev.Thorough() {
+		jfaults = append(jfaults,
+			Fault{Kind: "error", ErrText: "c07 joiner 20 refuses: ttrpc: closed", ErrForm: "wrap", ErrSentinel: "ttrpc.ErrClosed"},
+			Fault{Kind: "cut", Dir: "p2r", K: 20}, Fault{Kind: "cut", Dir: "r2p", K: 3, StallMs: 40},
+			Fault{Kind: "wrongtype", Type: 3},
+			Fault{Kind: "garbage", Level: "ttrpc", StreamSel: "zero", Type: 2, Bytes: []byte{1, 2, 3}, DeclLen: 3})
+	}
+	for _, q := range reqs {
+		for _, phase := range []string{"synchronize", "configure"} {
+			for _, ft := range jfaults {
+				run(C07Case{Req: q.req, Event: q.event, Follow: q.req, FollowEvent: q.event,
+					Plugins: []PluginSpec{{Idx: 10, Fault: Fault{Kind: "none"}}, {Idx: 30, Fault: Fault{Kind: "none"}}},
+					Joiner:  &JoinerSpec{Idx: 20, Idx2: 25, Phase: phase, Fault: ft}})
+			}
+		}
+	}
 	// a protocol break answered to each of the five relays (every relay has its own copy of the
 	// "close the plugin, go on" code): wrong message type and undecodable response
 	for _, q := range []rq{{"create", 0}, {"update", 0}, {"stop", 0}, {"updatepod", 0}, {"event", 9}} {
